@@ -157,7 +157,7 @@ Proof.
   unfold accepted_by_model in Ha. apply andb_true_iff in Ha as [Hw Hv].
   split; [exact Hw|]. split.
   - destruct (validate (fst wit_next) (snd wit_next)) as [[|]|]; try discriminate. reflexivity.
-  - exists ("i"%string, 82). split.
+  - exists ("i"%string, 77). split.
     + vm_compute. tauto.
     + intro H. apply next_scoped_b_spec in H. vm_compute in H. discriminate.
 Qed.
@@ -165,3 +165,970 @@ Lemma C23_next_full_false : ~ C23_next_full.
 Proof.
   intro H. destruct C23_next_refuted_holds as [t [s [Hw [Hv [n [Hn Hns]]]]]]. exact (Hns (H t s Hw Hv n Hn)).
 Qed.
+
+(* the same, witness by witness *)
+Lemma wit_iterator_refutes : refutes_scoping wit_iterator.
+Proof. apply refute_scoped; vm_compute; reflexivity. Qed.
+Lemma wit_first_only_refutes : refutes_scoping wit_first_only.
+Proof. apply refute_scoped; vm_compute; reflexivity. Qed.
+Lemma wit_unvisited_fail_refutes : refutes_scoping wit_unvisited_fail.
+Proof. apply refute_scoped; vm_compute; reflexivity. Qed.
+Lemma wit_unvisited_apmap_refutes : refutes_scoping wit_unvisited_apmap.
+Proof. apply refute_scoped; vm_compute; reflexivity. Qed.
+Lemma wit_unvisited_canon_peer_refutes : refutes_scoping wit_unvisited_canon_peer.
+Proof. apply refute_scoped; vm_compute; reflexivity. Qed.
+Lemma wit_unvisited_error_lens_refutes : refutes_scoping wit_unvisited_error_lens.
+Proof. apply refute_scoped; vm_compute; reflexivity. Qed.
+Lemma wit_next_refutes : refutes_next wit_next ("i"%string, 77).
+Proof.
+  assert (Ha : accepted_by_model wit_next = true) by (vm_compute; reflexivity).
+  unfold accepted_by_model in Ha. apply andb_true_iff in Ha as [Hw Hv].
+  split; [exact Hw|]. split.
+  - destruct (validate (fst wit_next) (snd wit_next)) as [[|]|]; try discriminate. reflexivity.
+  - split.
+    + vm_compute. tauto.
+    + intro H. apply next_scoped_b_spec in H. vm_compute in H. discriminate.
+Qed.
+
+Lemma source_tie_holds :
+  grammar_actions_disciplined = true /\ grammar_table_sane = true /\ parser_error_variants_agree = true.
+Proof. exact (conj grammar_actions_ok (conj grammar_table_sane_ok parser_error_variants_ok)). Qed.
+
+(* ========================================================================================== *)
+(* 4. what the validator does guarantee *)
+
+(* ------------------------------------------------------------------------------------------ *)
+(* 4a. the variable part of the validator, as a function of the list of callbacks *)
+
+Lemma span_ltb_spec : forall a b, span_ltb a b = (span_min a <? span_min b).
+Proof.
+  intros a b. unfold span_ltb, span_cmp. destruct (span_min a <? span_min b); [reflexivity|].
+  destruct (span_eqb a b); reflexivity.
+Qed.
+Lemma span_gtb_ge : forall a b, span_gtb a b = true -> span_min b <= span_min a.
+Proof.
+  intros a b. unfold span_gtb, span_cmp. destruct (span_min a <? span_min b) eqn:H; [discriminate|].
+  intros _. apply N.ltb_ge in H. exact H.
+Qed.
+Lemma span_ltb_trans_le : forall a b c, span_ltb a b = true -> span_min b <= span_min c -> span_ltb a c = true.
+Proof. intros a b c. rewrite !span_ltb_spec, !N.ltb_lt. lia. Qed.
+
+Definition cv (dfs : list (string * span)) (its : mm span) (key : string) (ks : span) : bool :=
+  match assoc key dfs with Some fs => span_ltb fs ks | None => false end
+  || existsb (fun s => span_ltb s ks) (mm_get_vec its key).
+Lemma contains_variable_cv : forall st k ks,
+  contains_variable st k ks = cv (met_variable_definitions st) (met_iterator_definitions st) k ks.
+Proof. reflexivity. Qed.
+
+Lemma cv_le : forall dfs its k a b, cv dfs its k a = true -> span_min a <= span_min b -> cv dfs its k b = true.
+Proof.
+  intros dfs its k a b H Hle. unfold cv in *. apply orb_true_iff in H. apply orb_true_iff.
+  destruct H as [H|H].
+  - left. destruct (assoc k dfs); [|discriminate]. eapply span_ltb_trans_le; eauto.
+  - right. apply existsb_exists in H as [s [Hs H]]. apply existsb_exists. exists s. split; [exact Hs|].
+    eapply span_ltb_trans_le; eauto.
+Qed.
+
+Definition met_names (st : vstate) (names : list string) (sp : span) : vstate :=
+  fold_left (fun s n => met_variable_name s n sp) names st.
+
+Lemma mvn_fields : forall st n sp,
+  met_variable_definitions (met_variable_name st n sp) = met_variable_definitions st /\
+  met_iterator_definitions (met_variable_name st n sp) = met_iterator_definitions st /\
+  unresolved_iterables (met_variable_name st n sp) = unresolved_iterables st /\
+  unresolved_variables (met_variable_name st n sp) =
+    unresolved_variables st ++ (if contains_variable st n sp then [] else [(n, sp)]).
+Proof.
+  intros st n sp. unfold met_variable_name. destruct (contains_variable st n sp); cbn.
+  - rewrite app_nil_r. auto.
+  - auto.
+Qed.
+
+Lemma met_names_fields : forall names st sp,
+  met_variable_definitions (met_names st names sp) = met_variable_definitions st /\
+  met_iterator_definitions (met_names st names sp) = met_iterator_definitions st /\
+  unresolved_iterables (met_names st names sp) = unresolved_iterables st /\
+  unresolved_variables (met_names st names sp) =
+    unresolved_variables st ++ map (fun n => (n, sp)) (filter (fun n => negb (contains_variable st n sp)) names).
+Proof.
+  induction names as [|a r IH]; intros st sp.
+  - cbn. rewrite app_nil_r. auto.
+  - change (met_names st (a :: r) sp) with (met_names (met_variable_name st a sp) r sp).
+    destruct (mvn_fields st a sp) as [Hd [Hi [Hn Hu]]].
+    destruct (IH (met_variable_name st a sp) sp) as [Hd' [Hi' [Hn' Hu']]].
+    rewrite Hd', Hi', Hn', Hu', Hd, Hi, Hn, Hu. repeat split.
+    assert (Hc : forall n, contains_variable (met_variable_name st a sp) n sp = contains_variable st n sp).
+    { intro n. unfold contains_variable. rewrite Hd, Hi. reflexivity. }
+    rewrite (filter_ext _ (fun n => negb (contains_variable st n sp))) by (intro n; rewrite Hc; reflexivity).
+    cbn [filter]. destruct (contains_variable st a sp); cbn [negb map]; [rewrite app_nil_r; reflexivity|].
+    rewrite <- app_assoc. reflexivity.
+Qed.
+
+Lemma step_fields : forall st e,
+  met_variable_definitions (step st e) =
+    fold_left (fun l n => define_name l n (ev_span e)) (ev_defs e) (met_variable_definitions st) /\
+  met_iterator_definitions (step st e) =
+    match ev_iter e with Some i => mm_insert (met_iterator_definitions st) i (ev_span e) | None => met_iterator_definitions st end /\
+  unresolved_iterables (step st e) =
+    match ev_next e with Some i => mm_insert (unresolved_iterables st) i (ev_span e) | None => unresolved_iterables st end /\
+  unresolved_variables (step st e) =
+    unresolved_variables st ++ map (fun n => (n, ev_span e)) (filter (fun n => negb (contains_variable st n (ev_span e))) (ev_uses e)).
+Proof.
+  intros st e. unfold step.
+  destruct (met_names_fields (ev_uses e) st (ev_span e)) as [Hd [Hi [Hn Hu]]]. fold (met_names st (ev_uses e) (ev_span e)).
+  unfold apply_rest. cbn. rewrite Hd, Hi, Hn, Hu. auto.
+Qed.
+
+(* define_name *)
+Lemma assoc_define_name : forall l n sp k,
+  assoc k (define_name l n sp) =
+  if String.eqb n k then
+    match assoc k l with Some old => if span_gtb old sp then Some sp else Some old | None => Some sp end
+  else assoc k l.
+Proof.
+  induction l as [|p r IH]; intros n sp k.
+  - cbn. destruct (String.eqb n k); reflexivity.
+  - cbn [define_name]. destruct (String.eqb (fst p) n) eqn:Hpn.
+    + apply String.eqb_eq in Hpn.
+      destruct (String.eqb n k) eqn:Hnk.
+      * cbn [assoc]. rewrite Hpn, Hnk. destruct (span_gtb (snd p) sp); cbn [assoc fst snd]; rewrite ?Hpn, Hnk; reflexivity.
+      * cbn [assoc]. rewrite Hpn, Hnk. destruct (span_gtb (snd p) sp); cbn [assoc fst snd]; rewrite ?Hpn, Hnk; reflexivity.
+    + cbn [assoc]. rewrite IH. destruct (String.eqb n k) eqn:Hnk; [|reflexivity].
+      apply String.eqb_eq in Hnk. subst k. rewrite Hpn. reflexivity.
+Qed.
+
+Lemma assoc_define_names : forall names l sp k s,
+  assoc k (fold_left (fun l n => define_name l n sp) names l) = Some s ->
+  assoc k l = Some s \/ (In k names /\ s = sp).
+Proof.
+  induction names as [|a r IH]; intros l sp k s H; cbn in H; [left; exact H|].
+  apply IH in H as [H|[H1 H2]]; [|right; split; [right; exact H1|exact H2]].
+  rewrite assoc_define_name in H. destruct (String.eqb a k) eqn:Hak; [|left; exact H].
+  apply String.eqb_eq in Hak. subst a.
+  destruct (assoc k l) as [old|].
+  - destruct (span_gtb old sp); inversion H; subst; [right; split; [left; reflexivity|reflexivity] | left; reflexivity].
+  - inversion H; subst. right. split; [left; reflexivity|reflexivity].
+Qed.
+
+Lemma cv_define_mono : forall dfs its n sp k ks, cv dfs its k ks = true -> cv (define_name dfs n sp) its k ks = true.
+Proof.
+  intros dfs its n sp k ks H. unfold cv in *. apply orb_true_iff in H. apply orb_true_iff.
+  destruct H as [H|H]; [left|right; exact H].
+  rewrite assoc_define_name. destruct (String.eqb n k); [|exact H].
+  destruct (assoc k dfs) as [old|]; [|discriminate].
+  destruct (span_gtb old sp) eqn:Hg; [|exact H].
+  apply span_gtb_ge in Hg. rewrite span_ltb_spec in *. apply N.ltb_lt in H. apply N.ltb_lt. lia.
+Qed.
+Lemma cv_define_names_mono : forall names dfs its sp k ks,
+  cv dfs its k ks = true -> cv (fold_left (fun l n => define_name l n sp) names dfs) its k ks = true.
+Proof.
+  induction names as [|a r IH]; intros dfs its sp k ks H; cbn; [exact H|].
+  apply IH. apply cv_define_mono. exact H.
+Qed.
+
+Lemma mm_get_vec_app : forall V (a b : mm V) k, mm_get_vec (a ++ b) k = mm_get_vec a k ++ mm_get_vec b k.
+Proof. intros. unfold mm_get_vec. rewrite filter_app, map_app. reflexivity. Qed.
+
+Lemma cv_insert_mono : forall dfs its i sp k ks, cv dfs its k ks = true -> cv dfs (mm_insert its i sp) k ks = true.
+Proof.
+  intros dfs its i sp k ks H. unfold cv in *. apply orb_true_iff in H. apply orb_true_iff.
+  destruct H as [H|H]; [left; exact H|right].
+  unfold mm_insert. rewrite mm_get_vec_app, existsb_app, H. reflexivity.
+Qed.
+
+Lemma step_mono : forall st e k ks, contains_variable st k ks = true -> contains_variable (step st e) k ks = true.
+Proof.
+  intros st e k ks H. rewrite contains_variable_cv in *.
+  destruct (step_fields st e) as [Hd [Hi _]]. rewrite Hd, Hi.
+  apply cv_define_names_mono. destruct (ev_iter e); [apply cv_insert_mono|]; exact H.
+Qed.
+Lemma run_mono : forall evs st k ks, contains_variable st k ks = true -> contains_variable (fold_left step evs st) k ks = true.
+Proof.
+  induction evs as [|e r IH]; intros st k ks H; cbn; [exact H|]. apply IH, step_mono, H.
+Qed.
+
+Lemma unres_grows : forall evs st, exists extra, unresolved_variables (fold_left step evs st) = unresolved_variables st ++ extra.
+Proof.
+  induction evs as [|e r IH]; intros st; cbn.
+  - exists []. rewrite app_nil_r. reflexivity.
+  - destruct (IH (step st e)) as [x Hx]. destruct (step_fields st e) as [_ [_ [_ Hu]]].
+    rewrite Hx, Hu, <- app_assoc. eexists. reflexivity.
+Qed.
+Lemma unres_iter_grows : forall evs st, exists extra, unresolved_iterables (fold_left step evs st) = unresolved_iterables st ++ extra.
+Proof.
+  induction evs as [|e r IH]; intros st; cbn.
+  - exists []. rewrite app_nil_r. reflexivity.
+  - destruct (IH (step st e)) as [x Hx]. destruct (step_fields st e) as [_ [_ [Hn _]]].
+    rewrite Hx, Hn. destruct (ev_next e); [unfold mm_insert; rewrite <- app_assoc|]; eexists; reflexivity.
+Qed.
+
+(* where the entries of the tables come from *)
+Definition origin (evs : list event) (st : vstate) : Prop :=
+  (forall k s, assoc k (met_variable_definitions st) = Some s -> exists e, In e evs /\ In k (ev_defs e) /\ s = ev_span e) /\
+  (forall k s, In (k, s) (met_iterator_definitions st) -> exists e, In e evs /\ ev_iter e = Some k /\ s = ev_span e) /\
+  (forall k s, In (k, s) (unresolved_variables st) -> exists e, In e evs /\ In k (ev_uses e) /\ s = ev_span e) /\
+  (forall k s, In (k, s) (unresolved_iterables st) -> exists e, In e evs /\ ev_next e = Some k /\ s = ev_span e).
+
+Lemma origin_step : forall evs st e, origin evs st -> origin (evs ++ [e]) (step st e).
+Proof.
+  intros evs st e [Ha [Hb [Hc Hd]]].
+  destruct (step_fields st e) as [Fd [Fi [Fn Fu]]].
+  assert (Hl : forall x, In x evs -> In x (evs ++ [e])) by (intros; apply in_or_app; left; assumption).
+  assert (He : In e (evs ++ [e])) by (apply in_or_app; right; left; reflexivity).
+  repeat split.
+  - intros k s H. rewrite Fd in H. apply assoc_define_names in H as [H|[H1 H2]].
+    + destruct (Ha k s H) as [x [X1 X2]]. exists x. split; [apply Hl, X1|exact X2].
+    + exists e. auto.
+  - intros k s H. rewrite Fi in H. destruct (ev_iter e) as [i|] eqn:Hi.
+    + unfold mm_insert in H. apply in_app_or in H as [H|[H|[]]].
+      * destruct (Hb k s H) as [x [X1 X2]]. exists x. split; [apply Hl, X1|exact X2].
+      * inversion H; subst. exists e. auto.
+    + destruct (Hb k s H) as [x [X1 X2]]. exists x. split; [apply Hl, X1|exact X2].
+  - intros k s H. rewrite Fu in H. apply in_app_or in H as [H|H].
+    + destruct (Hc k s H) as [x [X1 X2]]. exists x. split; [apply Hl, X1|exact X2].
+    + apply in_map_iff in H as [n [Hn Hin]]. inversion Hn; subst. apply filter_In in Hin as [Hin _]. exists e. auto.
+  - intros k s H. rewrite Fn in H. destruct (ev_next e) as [i|] eqn:Hi.
+    + unfold mm_insert in H. apply in_app_or in H as [H|[H|[]]].
+      * destruct (Hd k s H) as [x [X1 X2]]. exists x. split; [apply Hl, X1|exact X2].
+      * inversion H; subst. exists e. auto.
+    + destruct (Hd k s H) as [x [X1 X2]]. exists x. split; [apply Hl, X1|exact X2].
+Qed.
+Lemma origin_run_from : forall evs pre st, origin pre st -> origin (pre ++ evs) (fold_left step evs st).
+Proof.
+  induction evs as [|e r IH]; intros pre st H; cbn.
+  - rewrite app_nil_r. exact H.
+  - replace (pre ++ e :: r) with ((pre ++ [e]) ++ r) by (rewrite <- app_assoc; reflexivity).
+    apply IH, origin_step, H.
+Qed.
+Lemma origin_run : forall evs, origin evs (run_events evs).
+Proof.
+  intros evs. apply (origin_run_from evs [] vstate0).
+  repeat split; intros k s H; cbn in H; try discriminate; contradiction.
+Qed.
+
+(* MultiMap::iter(): the first pair of a key *)
+Lemma mm_iter_first : forall V (m1 m2 : mm V) k v, In (k, v) m1 ->
+  exists v0, In (k, v0) (mm_iter (m1 ++ m2)) /\ In (k, v0) m1.
+Proof.
+  induction m1 as [|p r IH]; intros m2 k v H; [contradiction|].
+  cbn [app mm_iter]. destruct (String.eqb k (fst p)) eqn:Hk.
+  - apply String.eqb_eq in Hk. exists (snd p). destruct p as [pk pv]. cbn in *. subst pk. split; left; reflexivity.
+  - assert (Hr : In (k, v) r).
+    { destruct H as [H|H]; [|exact H]. subst p. cbn in Hk. rewrite String.eqb_refl in Hk. discriminate. }
+    destruct (IH m2 k v Hr) as [v0 [H1 H2]]. exists v0. split; [|right; exact H2].
+    right. apply filter_In. split; [exact H1|]. cbn. rewrite Hk. reflexivity.
+Qed.
+Lemma mm_iter_subset : forall V (m : mm V) p, In p (mm_iter m) -> In p m.
+Proof.
+  induction m as [|q r IH]; intros p H; [contradiction|]. cbn in H. destruct H as [H|H]; [left; exact H|].
+  apply filter_In in H as [H _]. right. apply IH, H.
+Qed.
+
+Lemma flat_map_nil : forall A B (f : A -> list B) l, flat_map f l = [] -> forall x, In x l -> f x = [].
+Proof.
+  induction l as [|a r IH]; intros H x Hx; [contradiction|]. cbn in H. apply app_eq_nil in H as [H1 H2].
+  destruct Hx as [Hx|Hx]; [subst; exact H1|apply IH; assumption].
+Qed.
+
+(* soundness of check_undefined_variables: a use is covered by the final tables, or an EARLIER (or the same)
+   callback used the same name and that one is covered *)
+Lemma undefined_sound : forall evs, check_undefined_variables (run_events evs) = [] ->
+  forall l1 e l2, evs = l1 ++ e :: l2 -> forall x, In x (ev_uses e) ->
+  exists e0, In e0 (l1 ++ [e]) /\ In x (ev_uses e0) /\ contains_variable (run_events evs) x (ev_span e0) = true.
+Proof.
+  intros evs Hchk l1 e l2 Hevs x Hx.
+  set (st1 := run_events l1).
+  assert (Hrun : run_events evs = fold_left step l2 (step st1 e)).
+  { subst evs. unfold run_events, st1. rewrite fold_left_app. reflexivity. }
+  destruct (contains_variable st1 x (ev_span e)) eqn:Hc.
+  - exists e. split; [apply in_or_app; right; left; reflexivity|]. split; [exact Hx|].
+    rewrite Hrun. apply run_mono, step_mono, Hc.
+  - destruct (step_fields st1 e) as [_ [_ [_ Fu]]].
+    assert (Hin : In (x, ev_span e) (unresolved_variables (step st1 e))).
+    { rewrite Fu. apply in_or_app. right. apply in_map_iff. exists x. split; [reflexivity|].
+      apply filter_In. split; [exact Hx|]. rewrite Hc. reflexivity. }
+    destruct (unres_grows l2 (step st1 e)) as [extra Hex].
+    destruct (mm_iter_first _ _ extra x (ev_span e) Hin) as [s0 [H1 H2]].
+    assert (Ho : origin (l1 ++ [e]) (step st1 e)) by (apply origin_step, origin_run).
+    destruct Ho as [_ [_ [Hc3 _]]]. destruct (Hc3 x s0 H2) as [e0 [E1 [E2 E3]]].
+    exists e0. split; [exact E1|]. split; [exact E2|]. subst s0.
+    unfold check_undefined_variables in Hchk. rewrite Hrun, Hex in Hchk.
+    pose proof (flat_map_nil _ _ _ _ Hchk (x, ev_span e0) H1) as Hf. cbn in Hf.
+    rewrite Hrun. destruct (contains_variable (fold_left step l2 (step st1 e)) x (ev_span e0)); [reflexivity|discriminate].
+Qed.
+
+(* what "covered by the final tables" means *)
+Lemma contains_origin : forall evs x ks, contains_variable (run_events evs) x ks = true ->
+  exists e, In e evs /\ (In x (ev_defs e) \/ ev_iter e = Some x) /\ span_ltb (ev_span e) ks = true.
+Proof.
+  intros evs x ks H. destruct (origin_run evs) as [Ha [Hb _]].
+  unfold contains_variable in H. apply orb_true_iff in H as [H|H].
+  - destruct (assoc x (met_variable_definitions (run_events evs))) as [fs|] eqn:Hfs; [|discriminate].
+    destruct (Ha x fs Hfs) as [e [E1 [E2 E3]]]. exists e. subst fs. auto.
+  - apply existsb_exists in H as [s [Hs H]]. unfold mm_get_vec in Hs. apply in_map_iff in Hs as [p [Hp Hin]].
+    apply filter_In in Hin as [Hin Hk]. apply String.eqb_eq in Hk. destruct p as [pk ps]. cbn in *. subst.
+    destruct (Hb x s Hin) as [e [E1 [E2 E3]]]. exists e. subst s. auto.
+Qed.
+
+(* ------------------------------------------------------------------------------------------ *)
+(* 4b. layout of a tree of callbacks *)
+
+Definition leaf_kind (e : event) : bool :=
+  match e with
+  | EvCall _ _ _ _ | EvCanon _ _ | EvCanonMap _ _ | EvCanonMapScalar _ _ | EvAp _ _ _ | EvApMap _ _ _
+  | EvSimple _ | EvFail _ _ | EvNext _ _ => true
+  | _ => false
+  end.
+Definition eroot (T : etree) : event := match T with E0 e | E1 e _ | E2 e _ _ => e end.
+Definition new_arg_var (a : new_arg) : var :=
+  match a with NScalar v | NStream v | NStreamMap v | NCanon v | NCanonMap v => v end.
+(* the definition sites of a callback, with the position of the defined name *)
+Definition ev_def_pos (e : event) : list (string * pos) :=
+  match e with
+  | EvCall _ _ (OutScalar v) _ | EvCall _ _ (OutStream v) _ => [(v_name v, v_pos v)]
+  | EvCanon c _ | EvCanonMap c _ | EvCanonMapScalar c _ => [(v_name c, v_pos c)]
+  | EvAp _ (ApScalar v) _ | EvAp _ (ApStream v) _ => [(v_name v, v_pos v)]
+  | EvApMap _ m _ => [(v_name m, v_pos m)]
+  | EvNew a _ => [(v_name (new_arg_var a), v_pos (new_arg_var a))]
+  | _ => []
+  end.
+Definition eL (e : event) : N := sp_left (ev_span e).
+Definition eR (e : event) : N := sp_right (ev_span e).
+Definition defs_in (e : event) (limit : N) : Prop := forall d, In d (ev_def_pos e) -> eL e < snd d /\ snd d < limit.
+
+Fixpoint elayout (T : etree) : Prop :=
+  match T with
+  | E0 e => leaf_kind e = true /\ eL e < eR e /\ defs_in e (eR e)
+  | E1 e k => leaf_kind e = false /\ eL e < eL (eroot k) /\ eR (eroot k) < eR e /\ defs_in e (eL (eroot k)) /\ elayout k
+  | E2 e a b => leaf_kind e = false /\ eL e < eL (eroot a) /\ eR (eroot a) <= eL (eroot b) /\ eR (eroot b) < eR e /\
+                defs_in e (eL (eroot a)) /\ elayout a /\ elayout b
+  end.
+
+Lemma eroot_in_post : forall T, In (eroot T) (post T).
+Proof.
+  destruct T; cbn; [left; reflexivity| |]; repeat (apply in_or_app; right); left; reflexivity.
+Qed.
+
+Definition node_ok (root e : event) : Prop :=
+  eL root <= eL e /\ eR e <= eR root /\ eL e < eR e /\ (forall d, In d (ev_def_pos e) -> eL e < snd d /\ snd d < eR e).
+
+Lemma elayout_within : forall T, elayout T -> forall e, In e (post T) -> node_ok (eroot T) e.
+Proof.
+  induction T as [e0|e0 k IHk|e0 a IHa b IHb]; cbn [elayout post eroot]; intros H e He.
+  - destruct H as [_ [H1 H2]]. destruct He as [He|[]]. subst e. unfold node_ok. repeat split; try lia; apply H2; assumption.
+  - destruct H as [_ [H1 [H2 [H3 H4]]]].
+    pose proof (IHk H4 _ (eroot_in_post k)) as [_ [_ [Hk _]]].
+    apply in_app_or in He as [He|[He|[]]].
+    + destruct (IHk H4 e He) as [A [B [C D]]]. unfold node_ok. repeat split; try lia; apply D; assumption.
+    + subst e. unfold node_ok. repeat split; try lia; destruct (H3 d H); lia.
+  - destruct H as [_ [H1 [H2 [H3 [H4 [H5 H6]]]]]].
+    pose proof (IHa H5 _ (eroot_in_post a)) as [_ [_ [Ha _]]].
+    pose proof (IHb H6 _ (eroot_in_post b)) as [_ [_ [Hb _]]].
+    apply in_app_or in He as [He|He]; [|apply in_app_or in He as [He|[He|[]]]].
+    + destruct (IHa H5 e He) as [A [B [C D]]]. unfold node_ok. repeat split; try lia; apply D; assumption.
+    + destruct (IHb H6 e He) as [A [B [C D]]]. unfold node_ok. repeat split; try lia; apply D; assumption.
+    + subst e. unfold node_ok. repeat split; try lia; destruct (H4 d H); lia.
+Qed.
+
+Lemma app_eq_split : forall A (a b l1 l2 : list A) (e : A), a ++ b = l1 ++ e :: l2 ->
+  (exists t, a = l1 ++ e :: t /\ l2 = t ++ b) \/ (exists h, l1 = a ++ h /\ b = h ++ e :: l2).
+Proof.
+  induction a as [|x a IH]; intros b l1 l2 e H.
+  - right. exists l1. cbn in H. auto.
+  - destruct l1 as [|y l1]; cbn in H; inversion H; subst.
+    + left. exists a. auto.
+    + destruct (IH _ _ _ _ H2) as [[t [T1 T2]]|[h [H3 H4]]].
+      * left. exists t. subst. auto.
+      * right. exists h. subst. auto.
+Qed.
+
+(* what lies around a leaf callback e in the order of the callbacks: everything before it ends before it starts;
+   a definition site of any other callback that starts before e lies before e *)
+Lemma around_leaf : forall T, elayout T -> forall l1 e l2, post T = l1 ++ e :: l2 -> leaf_kind e = true ->
+  (forall e0, In e0 (l1) -> eR e0 <= eL e /\ eL e0 < eR e0) /\
+  (forall e', In e' (l1 ++ l2) -> eL e' < eL e -> forall d, In d (ev_def_pos e') -> snd d <= eL e).
+Proof.
+  induction T as [e0|e0 k IHk|e0 a IHa b IHb]; cbn [elayout post]; intros H l1 e l2 Hp Hleaf.
+  - destruct l1 as [|x l1]; cbn in Hp.
+    + inversion Hp; subst. split; intros ? [].
+    + inversion Hp. destruct l1; discriminate.
+  - destruct H as [Hk0 [H1 [H2 [H3 H4]]]].
+    apply app_eq_split in Hp as [[t [T1 T2]]|[h [X1 X2]]].
+    + destruct (IHk H4 _ _ _ T1 Hleaf) as [A B]. split; [exact A|].
+      intros e' He' Hlt d Hd. subst l2. rewrite app_assoc in He'. apply in_app_or in He' as [He'|[He'|[]]].
+      * eapply B; eauto.
+      * subst e'. destruct (H3 d Hd) as [_ D].
+        assert (Hin : In e (post k)) by (rewrite T1; apply in_or_app; right; left; reflexivity).
+        destruct (elayout_within k H4 e Hin) as [W _]. lia.
+    + destruct h as [|y h]; cbn in X2; inversion X2; subst.
+      * rewrite Hk0 in Hleaf. discriminate.
+      * destruct h; discriminate.
+  - destruct H as [Hk0 [H1 [H2 [H3 [H4 [H5 H6]]]]]].
+    apply app_eq_split in Hp as [[t [T1 T2]]|[h [X1 X2]]].
+    + (* e in a *)
+      destruct (IHa H5 _ _ _ T1 Hleaf) as [A B]. split; [exact A|].
+      assert (Hin : In e (post a)) by (rewrite T1; apply in_or_app; right; left; reflexivity).
+      destruct (elayout_within a H5 e Hin) as [W1 [W2 [W3 _]]].
+      intros e' He' Hlt d Hd. subst l2. rewrite app_assoc in He'. apply in_app_or in He' as [He'|He'].
+      * eapply B; eauto.
+      * apply in_app_or in He' as [He'|[He'|[]]].
+        -- destruct (elayout_within b H6 e' He') as [V1 _]. lia.
+        -- subst e'. destruct (H4 d Hd) as [_ D]. lia.
+    + apply app_eq_split in X2 as [[t [T1 T2]]|[h2 [Y1 Y2]]].
+      * (* e in b *)
+        destruct (IHb H6 _ _ _ T1 Hleaf) as [A B].
+        assert (Hin : In e (post b)) by (rewrite T1; apply in_or_app; right; left; reflexivity).
+        destruct (elayout_within b H6 e Hin) as [W1 [W2 [W3 _]]].
+        split.
+        -- intros e1 He1. subst l1. apply in_app_or in He1 as [He1|He1]; [|apply A, He1].
+           destruct (elayout_within a H5 e1 He1) as [V1 [V2 [V3 _]]]. lia.
+        -- intros e' He' Hlt d Hd. subst l1 l2. rewrite <- app_assoc in He'. apply in_app_or in He' as [He'|He'].
+           ++ destruct (elayout_within a H5 e' He') as [V1 [V2 [V3 V4]]]. destruct (V4 d Hd). lia.
+           ++ rewrite app_assoc in He'. apply in_app_or in He' as [He'|[He'|[]]].
+              ** eapply B; eauto.
+              ** subst e'. destruct (H4 d Hd) as [_ D].
+                 pose proof (elayout_within a H5 _ (eroot_in_post a)) as [_ [_ [Va _]]]. lia.
+      * destruct h2 as [|y h2]; cbn in Y2; inversion Y2; subst.
+        -- rewrite Hk0 in Hleaf. discriminate.
+        -- destruct h2; discriminate.
+Qed.
+
+(* ------------------------------------------------------------------------------------------ *)
+(* 4c. from the instruction tree to the tree of callbacks *)
+
+Definition kids (i : instr) : list instr :=
+  match i with
+  | ISeq a b | IPar a b | IXor a b => [a; b]
+  | IMatch _ _ _ b | IMisMatch _ _ _ b | INew _ _ b _ => [b]
+  | IFoldScalar _ _ _ b l _ | IFoldStream _ _ _ b l _ | IFoldStreamMap _ _ _ b l _ =>
+      b :: match l with Some x => [x] | None => [] end
+  | _ => []
+  end.
+Definition node_event (i : instr) (sp : span) : option event :=
+  match i with
+  | ICall _ t args out => Some (EvCall t args out sp)
+  | IAp _ a r => Some (EvAp a r sp)
+  | IApMap _ k _ m => Some (EvApMap k m sp)
+  | ICanon _ _ _ c => Some (EvCanon c sp)
+  | ICanonMap _ _ _ c => Some (EvCanonMap c sp)
+  | ICanonStreamMapScalar _ _ _ c => Some (EvCanonMapScalar c sp)
+  | ISeq _ _ | IPar _ _ => Some (EvMerging sp)
+  | IXor _ _ => Some (EvXoring sp)
+  | IMatch _ l r _ => Some (EvMatch l r sp)
+  | IMisMatch _ l r _ => Some (EvMisMatch l r sp)
+  | IFail _ f => Some (EvFail f sp)
+  | IFoldScalar _ it iter _ l _ => Some (EvFoldScalar it iter (is_some l) sp)
+  | IFoldStream _ s iter _ l _ => Some (EvFoldStream s iter (is_some l) sp)
+  | IFoldStreamMap _ s iter _ l _ => Some (EvFoldStreamMap s iter (is_some l) sp)
+  | INever | INull => Some (EvSimple sp)
+  | INew _ a _ _ => Some (EvNew a sp)
+  | INext _ iter => Some (EvNext iter sp)
+  | IError => None
+  end.
+
+Lemma skeleton_unfold : forall i s,
+  skeleton i s =
+  match kids i, s with
+  | [], S0 sp => option_map E0 (node_event i sp)
+  | [b], S1 sp sb => match node_event i sp, skeleton b sb with Some e, Some x => Some (E1 e x) | _, _ => None end
+  | [a; b], S2 sp sa sb =>
+      match node_event i sp, skeleton a sa, skeleton b sb with Some e, Some x, Some y => Some (E2 e x y) | _, _, _ => None end
+  | _, _ => None
+  end.
+Proof.
+  intros i s. destruct i; try (destruct last); destruct s; cbn; try reflexivity;
+    repeat match goal with |- context [skeleton ?x ?y] => destruct (skeleton x y) end; reflexivity.
+Qed.
+
+Lemma wf_unfold : forall i s,
+  wf_layout_b i s =
+  match kids i, s with
+  | [], S0 sp => header_ok i sp (sp_right sp) && is_some (node_event i sp)
+  | [b], S1 sp sb => header_ok i sp (sp_left (stree_span sb)) && kid_in sp sb && wf_layout_b b sb
+  | [a; b], S2 sp sa sb =>
+      header_ok i sp (sp_left (stree_span sa)) && kid_in sp sa && kid_in sp sb &&
+      (sp_right (stree_span sa) <=? sp_left (stree_span sb)) && wf_layout_b a sa && wf_layout_b b sb
+  | _, _ => false
+  end.
+Proof.
+  intros i s. destruct i; try (destruct last); destruct s; cbn [wf_layout_b kids node_event is_some]; try reflexivity;
+    rewrite ?andb_true_r; try reflexivity.
+  all: try (cbn; reflexivity).
+  rewrite andb_false_r. reflexivity.
+Qed.
+
+Lemma collect_kids : forall A (own : instr -> list A) i,
+  collect own i = flat_map (collect own) (kids i) ++ own i.
+Proof.
+  intros A own i. destruct i; try (destruct last); cbn; rewrite ?app_nil_r, <- ?app_assoc; reflexivity.
+Qed.
+
+(* the callback of a node *)
+Lemma ne_span : forall i sp e, node_event i sp = Some e -> ev_span e = sp.
+Proof. intros i sp e H. destruct i; cbn in H; inversion H; reflexivity. Qed.
+Lemma ne_leaf : forall i sp e, node_event i sp = Some e ->
+  leaf_kind e = match kids i with [] => true | _ => false end.
+Proof. intros i sp e H. destruct i; cbn in H; inversion H; reflexivity. Qed.
+Lemma ne_defs : forall i sp e, node_event i sp = Some e -> ev_def_pos e = own_defs i.
+Proof.
+  intros i sp e H. destruct i; cbn in H; inversion H; subst; cbn; try reflexivity;
+    repeat match goal with |- context [match ?x with _ => _ end] => destruct x end; reflexivity.
+Qed.
+Lemma ne_def_names : forall e, ev_defs e = map fst (ev_def_pos e).
+Proof.
+  destruct e; cbn; try reflexivity;
+    repeat match goal with |- context [match ?x with _ => _ end] => destruct x end; try reflexivity.
+  all: match goal with a : new_arg |- _ => destruct a; reflexivity end.
+Qed.
+
+Lemma span_eqb_eq : forall a b, span_eqb a b = true -> a = b.
+Proof.
+  intros [al ar] [bl br] H. unfold span_eqb in H. cbn in H. apply andb_true_iff in H as [H1 H2].
+  apply N.eqb_eq in H1, H2. subst. reflexivity.
+Qed.
+Lemma ne_iter : forall i sp e, node_event i sp = Some e -> own_span_ok i sp = true ->
+  forall x, ev_iter e = Some x -> In (x, sp) (own_folds i).
+Proof.
+  intros i sp e H Hok x Hx. destruct i; cbn in H; inversion H; subst; cbn in Hx; try discriminate;
+    cbn in Hok; apply span_eqb_eq in Hok; subst; inversion Hx; subst; left; reflexivity.
+Qed.
+Lemma ne_next : forall i sp e, node_event i sp = Some e -> forall x p, In (x, p) (own_nexts i) -> ev_next e = Some x.
+Proof.
+  intros i sp e H x p Hin. destruct i; cbn in Hin; try contradiction. destruct Hin as [Hin|[]].
+  cbn in H. inversion H; inversion Hin; subst. reflexivity.
+Qed.
+
+(* the occurrences the property counts vs the names the callbacks look up *)
+Definition positioned (u : occurrence) : Prop := exists p, o_pos u = Some p.
+Lemma occ_var_l_names : forall s v u, In u (occ_var_l s v) ->
+  In (o_name u) (names_var_l v) /\ positioned u /\ o_site u = s.
+Proof.
+  intros s v u H. unfold occ_var_l in H. destruct H as [H|H].
+  - subst u. cbn. repeat split; [left; reflexivity|eexists; reflexivity].
+  - apply in_map_iff in H as [n [Hn Hin]]. subst u. cbn. repeat split; [|eexists; reflexivity].
+    right. unfold names_lambda. unfold lens_scalars in Hin. exact Hin.
+Qed.
+Lemma occ_var_names : forall s v u, In u (occ_var s v) -> o_name u = v_name v /\ positioned u /\ o_site u = s.
+Proof. intros s v u [H|[]]. subst u. cbn. repeat split. eexists; reflexivity. Qed.
+Lemma occ_error_lens_site : forall l u, In u (occ_error_lens l) -> o_site u = UErrorLens.
+Proof. intros [l|] u H; cbn in H; [|contradiction]. apply in_map_iff in H as [n [Hn _]]. subst u. reflexivity. Qed.
+
+Lemma occ_peer_names : forall s p u, In u (occ_peer s p) -> In (o_name u) (names_peer p) /\ positioned u.
+Proof.
+  intros s p u H. destruct p; cbn in *; try contradiction.
+  - apply occ_var_names in H as [H1 [H2 _]]. rewrite H1. split; [left; reflexivity|exact H2].
+  - apply occ_var_l_names in H as [H1 [H2 _]]. auto.
+  - apply occ_var_l_names in H as [H1 [H2 _]]. auto.
+  - apply occ_var_l_names in H as [H1 [H2 _]]. auto.
+Qed.
+Lemma occ_string_arg_names : forall s p u, In u (occ_string_arg s p) -> In (o_name u) (names_string_arg p) /\ positioned u.
+Proof.
+  intros s p u H. destruct p; cbn in *; try contradiction.
+  - apply occ_var_names in H as [H1 [H2 _]]. rewrite H1. split; [left; reflexivity|exact H2].
+  - apply occ_var_l_names in H as [H1 [H2 _]]. auto.
+  - apply occ_var_l_names in H as [H1 [H2 _]]. auto.
+  - apply occ_var_l_names in H as [H1 [H2 _]]. auto.
+Qed.
+Lemma occ_value_names : forall s v u, In u (occ_value s v) -> o_site u <> UErrorLens ->
+  In (o_name u) (names_value v) /\ positioned u.
+Proof.
+  intros s v u H Hs. destruct v; cbn in *; try contradiction;
+    try (apply occ_error_lens_site in H; contradiction);
+    try (apply occ_var_names in H as [H1 [H2 _]]; rewrite H1; split; [left; reflexivity|exact H2]);
+    try (apply occ_var_l_names in H as [H1 [H2 _]]; auto).
+Qed.
+Lemma occ_ap_arg_names : forall s a u, In u (occ_ap_arg s a) -> o_site u <> UErrorLens ->
+  In (o_name u) (names_ap_arg a) /\ positioned u.
+Proof.
+  intros s a u H Hs. destruct a; cbn in *; try contradiction;
+    try (apply occ_error_lens_site in H; contradiction);
+    try (apply occ_var_names in H as [H1 [H2 _]]; rewrite H1; split; [left; reflexivity|exact H2]);
+    try (apply occ_var_l_names in H as [H1 [H2 _]]; auto).
+Qed.
+
+Lemma leaf_site_not_error : forall u, leaf_checked_site (o_site u) = true -> o_site u <> UErrorLens.
+Proof. intros u H E. rewrite E in H. discriminate. Qed.
+
+Lemma occ_ap_arg_site : forall s a u, In u (occ_ap_arg s a) -> o_site u = s \/ o_site u = UErrorLens.
+Proof.
+  intros s a u H. destruct a; cbn in *; try contradiction;
+    try (right; eapply occ_error_lens_site; eassumption);
+    try (apply occ_var_names in H as [_ [_ H]]; left; exact H);
+    try (apply occ_var_l_names in H as [_ [_ H]]; left; exact H).
+Qed.
+
+Lemma ne_uses : forall i sp e, node_event i sp = Some e ->
+  forall u, In u (own_uses i) -> leaf_checked_site (o_site u) = true ->
+  In (o_name u) (ev_uses e) /\ positioned u /\ leaf_kind e = true.
+Proof.
+  intros i sp e H u Hu Hs. pose proof (leaf_site_not_error u Hs) as Hne.
+  destruct i; cbn in H; inversion H; subst; cbn [own_uses] in Hu; try contradiction; cbn [ev_uses leaf_kind].
+  - (* call *)
+    apply in_app_or in Hu as [Hu|Hu]; [|apply in_app_or in Hu as [Hu|Hu]; [|apply in_app_or in Hu as [Hu|Hu]]].
+    + apply occ_peer_names in Hu as [A B]. repeat split; auto. apply in_or_app. left. exact A.
+    + apply occ_string_arg_names in Hu as [A B]. repeat split; auto. apply in_or_app. right. apply in_or_app. left. exact A.
+    + apply occ_string_arg_names in Hu as [A B]. repeat split; auto. do 2 (apply in_or_app; right). apply in_or_app. left. exact A.
+    + apply in_flat_map in Hu as [v [Hv Hu]]. apply occ_value_names in Hu as [A B]; [|exact Hne].
+      repeat split; auto. do 3 (apply in_or_app; right). apply in_flat_map. exists v. auto.
+  - (* ap *)
+    apply occ_ap_arg_names in Hu as [A B]; [|exact Hne]. auto.
+  - (* ap map *)
+    apply in_app_or in Hu as [Hu|Hu].
+    + destruct k; cbn in *; try contradiction.
+      * apply occ_var_names in Hu as [H1 [H2 _]]. rewrite H1. repeat split; auto; try (left; reflexivity).
+      * apply occ_var_l_names in Hu as [H1 [H2 _]]. auto.
+      * apply occ_var_l_names in Hu as [H1 [H2 _]]. auto.
+    + apply occ_ap_arg_site in Hu as [Hu|Hu]; rewrite Hu in Hs; discriminate.
+  - (* canon: the peer is not a checked site *)
+    exfalso. destruct p; cbn in Hu; try contradiction;
+      [apply occ_var_names in Hu as [_ [_ Hu]] | apply occ_var_l_names in Hu as [_ [_ Hu]] ..]; rewrite Hu in Hs; discriminate.
+  - exfalso. destruct p; cbn in Hu; try contradiction;
+      [apply occ_var_names in Hu as [_ [_ Hu]] | apply occ_var_l_names in Hu as [_ [_ Hu]] ..]; rewrite Hu in Hs; discriminate.
+  - exfalso. destruct p; cbn in Hu; try contradiction;
+      [apply occ_var_names in Hu as [_ [_ Hu]] | apply occ_var_l_names in Hu as [_ [_ Hu]] ..]; rewrite Hu in Hs; discriminate.
+  - (* match *)
+    exfalso. apply in_app_or in Hu as [Hu|Hu];
+      (destruct l, r; cbn in Hu; try contradiction;
+       try (apply occ_error_lens_site in Hu; contradiction);
+       try (apply occ_var_names in Hu as [_ [_ Hu]]; rewrite Hu in Hs; discriminate);
+       try (apply occ_var_l_names in Hu as [_ [_ Hu]]; rewrite Hu in Hs; discriminate)).
+  - exfalso. apply in_app_or in Hu as [Hu|Hu];
+      (destruct l, r; cbn in Hu; try contradiction;
+       try (apply occ_error_lens_site in Hu; contradiction);
+       try (apply occ_var_names in Hu as [_ [_ Hu]]; rewrite Hu in Hs; discriminate);
+       try (apply occ_var_l_names in Hu as [_ [_ Hu]]; rewrite Hu in Hs; discriminate)).
+  - (* fail *)
+    exfalso. destruct f; cbn in Hu; try contradiction;
+      [apply occ_var_names in Hu as [_ [_ Hu]] | apply occ_var_l_names in Hu as [_ [_ Hu]] ..]; rewrite Hu in Hs; discriminate.
+  - (* folds *)
+    exfalso. destruct it; cbn in Hu; try contradiction;
+      try (apply occ_var_names in Hu as [_ [_ Hu]]; rewrite Hu in Hs; discriminate);
+      try (apply occ_var_l_names in Hu as [_ [_ Hu]]; rewrite Hu in Hs; discriminate).
+  - exfalso. apply occ_var_names in Hu as [_ [_ Hu]]; rewrite Hu in Hs; discriminate.
+  - exfalso. apply occ_var_names in Hu as [_ [_ Hu]]; rewrite Hu in Hs; discriminate.
+Qed.
+
+Lemma skel_cases : forall i s T, skeleton i s = Some T ->
+  match T with
+  | E0 e => exists sp, s = S0 sp /\ kids i = [] /\ node_event i sp = Some e
+  | E1 e x => exists sp sb b, s = S1 sp sb /\ kids i = [b] /\ node_event i sp = Some e /\ skeleton b sb = Some x
+  | E2 e x y => exists sp sa sb a b, s = S2 sp sa sb /\ kids i = [a; b] /\ node_event i sp = Some e /\
+                                     skeleton a sa = Some x /\ skeleton b sb = Some y
+  end.
+Proof.
+  intros i s T H. rewrite skeleton_unfold in H.
+  destruct (kids i) as [|a [|b [|c r]]]; destruct s as [sp|sp sb|sp sa sb]; try discriminate.
+  - destruct (node_event i sp) eqn:He; cbn in H; inversion H; subst. eauto.
+  - destruct (node_event i sp) eqn:He; [|discriminate]. destruct (skeleton a sb) eqn:Hx; inversion H; subst.
+    exists sp, sb, a. auto.
+  - destruct (node_event i sp) eqn:He; [|discriminate]. destruct (skeleton a sa) eqn:Hx; [|discriminate].
+    destruct (skeleton b sb) eqn:Hy; inversion H; subst. exists sp, sa, sb, a, b. auto.
+Qed.
+
+Lemma header_ok_spec : forall i sp limit, header_ok i sp limit = true ->
+  sp_left sp < sp_right sp /\ own_span_ok i sp = true /\ forall p, In p (own_positions i) -> sp_left sp < p /\ p < limit.
+Proof.
+  intros i sp limit H. unfold header_ok in H. apply andb_true_iff in H as [H H3]. apply andb_true_iff in H as [H1 H2].
+  apply N.ltb_lt in H1. split; [exact H1|]. split; [exact H2|]. intros p Hp.
+  rewrite forallb_forall in H3. specialize (H3 p Hp).
+  apply andb_true_iff in H3 as [A B]. apply N.ltb_lt in A, B. auto.
+Qed.
+Lemma own_defs_positions : forall i d, In d (own_defs i) -> In (snd d) (own_positions i).
+Proof.
+  intros i d H. unfold own_positions. apply in_or_app. right. apply in_or_app. left. apply in_map. exact H.
+Qed.
+Lemma own_uses_positions : forall i u p, In u (own_uses i) -> o_pos u = Some p -> In p (own_positions i).
+Proof.
+  intros i u p H Hp. unfold own_positions. apply in_or_app. left. apply in_flat_map. exists u. split; [exact H|].
+  rewrite Hp. left. reflexivity.
+Qed.
+Lemma own_nexts_positions : forall i n, In n (own_nexts i) -> In (snd n) (own_positions i).
+Proof.
+  intros i d H. unfold own_positions. do 2 (apply in_or_app; right). apply in_or_app. left. apply in_map. exact H.
+Qed.
+
+Lemma kid_in_spec : forall sp k, kid_in sp k = true -> sp_left sp < sp_left (stree_span k) /\ sp_right (stree_span k) < sp_right sp.
+Proof. intros sp k H. unfold kid_in in H. apply andb_true_iff in H as [A B]. apply N.ltb_lt in A, B. auto. Qed.
+
+(* a tree with the layout of a text gives a tree of callbacks with that layout *)
+Lemma skeleton_layout : forall T i s, skeleton i s = Some T -> wf_layout_b i s = true ->
+  elayout T /\ ev_span (eroot T) = stree_span s.
+Proof.
+  induction T as [e|e x IHx|e x IHx y IHy]; intros i s Hs Hw; pose proof (skel_cases _ _ _ Hs) as Hc; cbn in Hc.
+  - destruct Hc as [sp [-> [Hk He]]]. rewrite wf_unfold, Hk in Hw. apply andb_true_iff in Hw as [Hh _].
+    apply header_ok_spec in Hh as [H1 [H2 H3]]. pose proof (ne_span _ _ _ He) as Hsp.
+    split; [|exact Hsp]. cbn. unfold defs_in, eL, eR. rewrite Hsp, (ne_leaf _ _ _ He), Hk, (ne_defs _ _ _ He).
+    repeat split; auto;
+      match goal with Hd : In ?d (own_defs _) |- _ => destruct (H3 _ (own_defs_positions _ _ Hd)); assumption end.
+  - destruct Hc as [sp [sb [b [-> [Hk [He Hx]]]]]]. rewrite wf_unfold, Hk in Hw.
+    apply andb_true_iff in Hw as [Hw Hwb]. apply andb_true_iff in Hw as [Hh Hkid].
+    apply header_ok_spec in Hh as [H1 [H2 H3]]. apply kid_in_spec in Hkid as [K1 K2].
+    destruct (IHx _ _ Hx Hwb) as [Lx Rx]. pose proof (ne_span _ _ _ He) as Hsp.
+    split; [|exact Hsp]. cbn. unfold defs_in, eL, eR. rewrite Hsp, Rx, (ne_leaf _ _ _ He), Hk, (ne_defs _ _ _ He).
+    repeat split; auto;
+      match goal with Hd : In ?d (own_defs _) |- _ => destruct (H3 _ (own_defs_positions _ _ Hd)); assumption end.
+  - destruct Hc as [sp [sa [sb [a [b [-> [Hk [He [Hx Hy]]]]]]]]]. rewrite wf_unfold, Hk in Hw.
+    apply andb_true_iff in Hw as [Hw Hwb]. apply andb_true_iff in Hw as [Hw Hwa].
+    apply andb_true_iff in Hw as [Hw Hord]. apply andb_true_iff in Hw as [Hw Hkb]. apply andb_true_iff in Hw as [Hh Hka].
+    apply header_ok_spec in Hh as [H1 [H2 H3]]. apply kid_in_spec in Hka as [A1 A2]. apply kid_in_spec in Hkb as [B1 B2].
+    apply N.leb_le in Hord.
+    destruct (IHx _ _ Hx Hwa) as [Lx Rx]. destruct (IHy _ _ Hy Hwb) as [Ly Ry]. pose proof (ne_span _ _ _ He) as Hsp.
+    split; [|exact Hsp]. cbn. unfold defs_in, eL, eR. rewrite Hsp, Rx, Ry, (ne_leaf _ _ _ He), Hk, (ne_defs _ _ _ He).
+    repeat split; auto;
+      match goal with Hd : In ?d (own_defs _) |- _ => destruct (H3 _ (own_defs_positions _ _ Hd)); assumption end.
+Qed.
+
+(* the callbacks and the lists the property is stated over *)
+Definition located (T : etree) (e : event) : Prop := exists l1 l2, post T = l1 ++ e :: l2.
+Lemma located_app_l : forall (a b : list event) e, (exists l1 l2, a = l1 ++ e :: l2) -> exists l1 l2, a ++ b = l1 ++ e :: l2.
+Proof. intros a b e [l1 [l2 H]]. exists l1, (l2 ++ b). rewrite H, <- app_assoc. reflexivity. Qed.
+Lemma located_app_r : forall (a b : list event) e, (exists l1 l2, b = l1 ++ e :: l2) -> exists l1 l2 : list event, a ++ b = l1 ++ e :: l2.
+Proof. intros a b e [l1 [l2 H]]. exists (a ++ l1), l2. rewrite H, <- app_assoc. reflexivity. Qed.
+
+Record bridged (i : instr) (T : etree) : Prop := {
+  br_defs : forall e, In e (post T) -> forall d, In d (ev_def_pos e) -> In d (defs i);
+  br_iter : forall e, In e (post T) -> forall x, ev_iter e = Some x -> In (x, ev_span e) (folds i);
+  br_uses : forall u, In u (uses i) -> leaf_checked_site (o_site u) = true ->
+            exists e p, located T e /\ leaf_kind e = true /\ In (o_name u) (ev_uses e) /\ o_pos u = Some p /\ eL e < p;
+  br_nexts : forall n, In n (nexts i) ->
+            exists e, located T e /\ leaf_kind e = true /\ ev_next e = Some (fst n) /\ eL e < snd n /\ snd n < eR e;
+  br_nexts_back : forall e x, In e (post T) -> ev_next e = Some x ->
+            exists p, In (x, p) (nexts i) /\ eL e < p /\ p < eR e
+}.
+
+Lemma ev_next_own : forall i sp e x, node_event i sp = Some e -> ev_next e = Some x -> exists p, In (x, p) (own_nexts i).
+Proof.
+  intros i sp e x H Hx. destruct i; cbn in H; inversion H; subst; cbn in Hx; try discriminate.
+  inversion Hx; subst. eexists. left. reflexivity.
+Qed.
+
+Lemma own_facts : forall i sp e limit, node_event i sp = Some e -> header_ok i sp limit = true -> limit <= sp_right sp ->
+  (forall d, In d (ev_def_pos e) -> In d (own_defs i)) /\
+  (forall x, ev_iter e = Some x -> In (x, ev_span e) (own_folds i)) /\
+  (forall u, In u (own_uses i) -> leaf_checked_site (o_site u) = true ->
+     leaf_kind e = true /\ In (o_name u) (ev_uses e) /\ exists p, o_pos u = Some p /\ eL e < p) /\
+  (forall n, In n (own_nexts i) -> ev_next e = Some (fst n) /\ eL e < snd n /\ snd n < eR e) /\
+  (forall x, ev_next e = Some x -> exists p, In (x, p) (own_nexts i) /\ eL e < p /\ p < eR e).
+Proof.
+  intros i sp e limit He Hh Hl. apply header_ok_spec in Hh as [H1 [H2 H3]].
+  pose proof (ne_span _ _ _ He) as Hsp. unfold eL, eR. rewrite Hsp. repeat split.
+  - intros d Hd. rewrite (ne_defs _ _ _ He) in Hd. exact Hd.
+  - intros x Hx. apply (ne_iter _ _ _ He H2 x Hx).
+  - destruct (ne_uses _ _ _ He u H H0) as [_ [_ A]]. exact A.
+  - destruct (ne_uses _ _ _ He u H H0) as [A _]. exact A.
+  - destruct (ne_uses _ _ _ He u H H0) as [_ [[p Hp] _]]. exists p. split; [exact Hp|].
+    apply (H3 p (own_uses_positions _ _ _ H Hp)).
+  - destruct n as [x p]. apply (ne_next _ _ _ He x p H).
+  - apply (H3 _ (own_nexts_positions _ _ H)).
+  - destruct (H3 _ (own_nexts_positions _ _ H)). lia.
+  - intros x Hx. destruct (ev_next_own _ _ _ _ He Hx) as [p Hp]. exists p. split; [exact Hp|].
+    destruct (H3 _ (own_nexts_positions _ _ Hp)). cbn in *. lia.
+Qed.
+
+Lemma located_root : forall T, located T (eroot T).
+Proof.
+  destruct T as [e|e x|e x y]; cbn; unfold located; cbn.
+  - exists [], []. reflexivity.
+  - exists (post x), []. reflexivity.
+  - exists (post x ++ post y), []. rewrite <- app_assoc. reflexivity.
+Qed.
+
+Lemma skeleton_bridged : forall T i s, skeleton i s = Some T -> wf_layout_b i s = true -> bridged i T.
+Proof.
+  induction T as [e|e x IHx|e x IHx y IHy]; intros i s Hs Hw; pose proof (skel_cases _ _ _ Hs) as Hc; cbn in Hc.
+  - destruct Hc as [sp [-> [Hk He]]]. rewrite wf_unfold, Hk in Hw. apply andb_true_iff in Hw as [Hh _].
+    destruct (own_facts _ _ _ _ He Hh (N.le_refl _)) as [F1 [F2 [F3 [F4 F5]]]].
+    constructor; unfold uses, defs, folds, nexts; cbn [post]; rewrite ?(collect_kids _ _ i), ?Hk; cbn [flat_map app].
+    + intros e0 [<-|[]] d Hd. rewrite ?(collect_kids _ _ i), ?Hk. cbn. apply F1, Hd.
+    + intros e0 [<-|[]] x Hx. rewrite ?(collect_kids _ _ i), ?Hk. cbn. apply F2, Hx.
+    + intros u Hu Hsite. destruct (F3 u Hu Hsite) as [A [B [p [C D]]]]. exists e, p.
+      split; [exists [], []; reflexivity|auto].
+    + intros n Hn. destruct (F4 n Hn) as [A [B C]]. exists e. split; [exists [], []; reflexivity|].
+      split; [|auto]. rewrite (ne_leaf _ _ _ He), Hk. reflexivity.
+    + intros e0 x [<-|[]] Hx. rewrite ?(collect_kids _ _ i), ?Hk. cbn. apply F5, Hx.
+  - destruct Hc as [sp [sb [b [-> [Hk [He Hx]]]]]]. rewrite wf_unfold, Hk in Hw.
+    apply andb_true_iff in Hw as [Hw Hwb]. apply andb_true_iff in Hw as [Hh Hkid].
+    apply kid_in_spec in Hkid as [K1 K2].
+    assert (Hlim : sp_left (stree_span sb) <= sp_right sp).
+    { destruct (skeleton_layout _ _ _ Hx Hwb) as [Lx Rx]. pose proof (elayout_within _ Lx _ (eroot_in_post x)) as [_ [_ [W _]]].
+      unfold eL, eR in W. rewrite Rx in W. lia. }
+    destruct (own_facts _ _ _ _ He Hh Hlim) as [F1 [F2 [F3 [F4 F5]]]].
+    destruct (IHx _ _ Hx Hwb) as [G1 G2 G3 G4 G5].
+    constructor; unfold uses, defs, folds, nexts in *; cbn [post]; rewrite ?(collect_kids _ _ i), ?Hk; cbn [flat_map]; rewrite ?app_nil_r.
+    + intros e0 He0 d Hd. rewrite ?(collect_kids _ _ i), ?Hk. cbn [flat_map]. rewrite ?app_nil_r. apply in_or_app.
+      apply in_app_or in He0 as [He0|[<-|[]]]; [left; eapply G1; eauto|right; apply F1, Hd].
+    + intros e0 He0 z Hz. rewrite ?(collect_kids _ _ i), ?Hk. cbn [flat_map]. rewrite ?app_nil_r. apply in_or_app.
+      apply in_app_or in He0 as [He0|[<-|[]]]; [left; eapply G2; eauto|right; apply F2, Hz].
+    + intros u Hu Hsite. apply in_app_or in Hu as [Hu|Hu].
+      * destruct (G3 u Hu Hsite) as [e0 [p [A B]]]. exists e0, p. split; [|exact B]. apply located_app_l; exact A.
+      * destruct (F3 u Hu Hsite) as [A _]. rewrite (ne_leaf _ _ _ He), Hk in A. discriminate.
+    + intros n Hn. apply in_app_or in Hn as [Hn|Hn].
+      * destruct (G4 n Hn) as [e0 [A B]]. exists e0. split; [|exact B]. apply located_app_l; exact A.
+      * destruct (F4 n Hn) as [A _]. destruct (ev_next_own _ _ _ _ He A) as [p Hp].
+        exfalso. destruct i; cbn in Hk; try discriminate; cbn in Hp; try contradiction; destruct last; discriminate.
+    + intros e0 z He0 Hz. rewrite ?(collect_kids _ _ i), ?Hk. cbn [flat_map]. rewrite ?app_nil_r.
+      apply in_app_or in He0 as [He0|[<-|[]]].
+      * destruct (G5 _ _ He0 Hz) as [p [A B]]. exists p. split; [apply in_or_app; left; exact A|exact B].
+      * destruct (F5 z Hz) as [p [A B]]. exists p. split; [apply in_or_app; right; exact A|exact B].
+  - destruct Hc as [sp [sa [sb [a [b [-> [Hk [He [Hx Hy]]]]]]]]]. rewrite wf_unfold, Hk in Hw.
+    apply andb_true_iff in Hw as [Hw Hwb]. apply andb_true_iff in Hw as [Hw Hwa].
+    apply andb_true_iff in Hw as [Hw Hord]. apply andb_true_iff in Hw as [Hw Hkb]. apply andb_true_iff in Hw as [Hh Hka].
+    apply kid_in_spec in Hka as [A1 A2].
+    assert (Hlim : sp_left (stree_span sa) <= sp_right sp).
+    { destruct (skeleton_layout _ _ _ Hx Hwa) as [Lx Rx]. pose proof (elayout_within _ Lx _ (eroot_in_post x)) as [_ [_ [W _]]].
+      unfold eL, eR in W. rewrite Rx in W. lia. }
+    destruct (own_facts _ _ _ _ He Hh Hlim) as [F1 [F2 [F3 [F4 F5]]]].
+    destruct (IHx _ _ Hx Hwa) as [G1 G2 G3 G4 G5]. destruct (IHy _ _ Hy Hwb) as [J1 J2 J3 J4 J5].
+    constructor; unfold uses, defs, folds, nexts in *; cbn [post]; rewrite ?(collect_kids _ _ i), ?Hk; cbn [flat_map]; rewrite ?app_nil_r.
+    + intros e0 He0 d Hd. rewrite ?(collect_kids _ _ i), ?Hk. cbn [flat_map]. rewrite ?app_nil_r, <- ?app_assoc.
+      apply in_app_or in He0 as [He0|He0]; [apply in_or_app; left; eapply G1; eauto|].
+      apply in_app_or in He0 as [He0|[<-|[]]]; apply in_or_app; right; apply in_or_app; [left; eapply J1; eauto|right; apply F1, Hd].
+    + intros e0 He0 z Hz. rewrite ?(collect_kids _ _ i), ?Hk. cbn [flat_map]. rewrite ?app_nil_r, <- ?app_assoc.
+      apply in_app_or in He0 as [He0|He0]; [apply in_or_app; left; eapply G2; eauto|].
+      apply in_app_or in He0 as [He0|[<-|[]]]; apply in_or_app; right; apply in_or_app; [left; eapply J2; eauto|right; apply F2, Hz].
+    + intros u Hu Hsite. rewrite <- app_assoc in Hu. apply in_app_or in Hu as [Hu|Hu]; [|apply in_app_or in Hu as [Hu|Hu]].
+      * destruct (G3 u Hu Hsite) as [e0 [p [A B]]]. exists e0, p. split; [|exact B]. apply located_app_l; exact A.
+      * destruct (J3 u Hu Hsite) as [e0 [p [A B]]]. exists e0, p. split; [|exact B].
+        apply located_app_r. apply located_app_l; exact A.
+      * destruct (F3 u Hu Hsite) as [A _]. rewrite (ne_leaf _ _ _ He), Hk in A. discriminate.
+    + intros n Hn. rewrite <- app_assoc in Hn. apply in_app_or in Hn as [Hn|Hn]; [|apply in_app_or in Hn as [Hn|Hn]].
+      * destruct (G4 n Hn) as [e0 [A B]]. exists e0. split; [|exact B]. apply located_app_l; exact A.
+      * destruct (J4 n Hn) as [e0 [A B]]. exists e0. split; [|exact B]. apply located_app_r. apply located_app_l; exact A.
+      * destruct (F4 n Hn) as [A _]. destruct (ev_next_own _ _ _ _ He A) as [p Hp].
+        exfalso. destruct i; cbn in Hk; try discriminate; cbn in Hp; try contradiction; destruct last; discriminate.
+    + intros e0 z He0 Hz. rewrite ?(collect_kids _ _ i), ?Hk. cbn [flat_map]. rewrite ?app_nil_r, <- ?app_assoc.
+      apply in_app_or in He0 as [He0|He0]; [|apply in_app_or in He0 as [He0|[<-|[]]]].
+      * destruct (G5 _ _ He0 Hz) as [p [A B]]. exists p. split; [apply in_or_app; left; exact A|exact B].
+      * destruct (J5 _ _ He0 Hz) as [p [A B]]. exists p. split; [apply in_or_app; right; apply in_or_app; left; exact A|exact B].
+      * destruct (F5 z Hz) as [p [A B]]. exists p. split; [do 2 (apply in_or_app; right); exact A|exact B].
+Qed.
+
+(* ------------------------------------------------------------------------------------------ *)
+(* 4d. the guarantees *)
+
+Lemma validate_accepts : forall t s, validate t s = Some [] ->
+  exists T, skeleton t s = Some T /\
+    check_undefined_variables (run_events (post T)) = [] /\ check_undefined_iterables (run_events (post T)) = [].
+Proof.
+  intros t s H. unfold validate, events in H. destruct (skeleton t s) as [T|]; [|discriminate].
+  cbn in H. injection H as Hv. exists T. split; [reflexivity|].
+  unfold validate_events, finalize in Hv. apply app_eq_nil in Hv as [H1 Hv]. apply app_eq_nil in Hv as [H2 _]. split; assumption.
+Qed.
+
+Lemma span_min_left : forall e, eL e < eR e -> span_min (ev_span e) = eL e.
+Proof. intros e H. unfold span_min, eL, eR in *. apply N.min_l. lia. Qed.
+
+Lemma in_split_located : forall (l1 l2 : list event) e x, In x (l1 ++ e :: l2) -> x = e \/ In x (l1 ++ l2).
+Proof.
+  intros l1 l2 e x H. apply in_app_or in H as [H|[H|H]]; [right; apply in_or_app; left; exact H|left; symmetry; exact H|
+    right; apply in_or_app; right; exact H].
+Qed.
+
+Theorem C23_scoped_partial_holds : C23_scoped_partial_stmt.
+Proof.
+  intros t s Hw Hv u Hu Hsite.
+  destruct (validate_accepts _ _ Hv) as [T [Hs [Hchk _]]].
+  destruct (skeleton_layout _ _ _ Hs Hw) as [Hlay _].
+  destruct (skeleton_bridged _ _ _ Hs Hw) as [Bd Bi Bu _ _].
+  destruct (Bu u Hu Hsite) as [e [p [[l1 [l2 Hloc]] [Hleaf [Hname [Hp Hlt]]]]]].
+  exists p. split; [exact Hp|].
+  destruct (undefined_sound _ Hchk _ _ _ Hloc _ Hname) as [e0 [He0 [_ Hc0]]].
+  destruct (around_leaf _ Hlay _ _ _ Hloc Hleaf) as [Hbefore Hdefs].
+  assert (Hine : In e (post T)) by (rewrite Hloc; apply in_or_app; right; left; reflexivity).
+  destruct (elayout_within _ Hlay _ Hine) as [_ [_ [HeLR _]]].
+  (* the use is covered by the final tables at its own span *)
+  assert (Hc : contains_variable (run_events (post T)) (o_name u) (ev_span e) = true).
+  { apply in_app_or in He0 as [He0|[He0|[]]]; [|subst e0; exact Hc0].
+    destruct (Hbefore _ He0) as [R0 LR0].
+    rewrite contains_variable_cv in *. eapply cv_le; [exact Hc0|].
+    rewrite (span_min_left _ LR0), (span_min_left _ HeLR). lia. }
+  destruct (contains_origin _ _ _ Hc) as [e' [He' [Hkind Hlt']]].
+  destruct (elayout_within _ Hlay _ He') as [_ [_ [HeLR' _]]].
+  rewrite span_ltb_spec, (span_min_left _ HeLR'), (span_min_left _ HeLR) in Hlt'. apply N.ltb_lt in Hlt'.
+  destruct Hkind as [Hdef|Hiter].
+  - left. rewrite ne_def_names in Hdef. apply in_map_iff in Hdef as [d [Hd1 Hd2]].
+    exists d. split; [eapply Bd; eauto|]. split; [exact Hd1|].
+    rewrite Hloc in He'. apply in_split_located in He' as [He'|He']; [subst e'; lia|].
+    pose proof (Hdefs _ He' Hlt' _ Hd2). lia.
+  - right. exists (o_name u, ev_span e'). split; [apply Bi; assumption|]. split; [reflexivity|].
+    cbn. unfold eL in *. lia.
+Qed.
+
+(* ---- next ---- *)
+Lemma in_insert_span : forall x a l, In x (insert_span a l) -> x = a \/ In x l.
+Proof.
+  induction l as [|y r IH]; cbn; intros H.
+  - destruct H as [H|[]]. left. symmetry. exact H.
+  - destruct (span_gtb a y).
+    + destruct H as [H|H]; [right; left; exact H|]. destruct (IH H) as [E|E]; [left; exact E|right; right; exact E].
+    + destruct H as [H|H]; [left; symmetry; exact H|right; exact H].
+Qed.
+Lemma in_sort_spans : forall x l, In x (sort_spans l) -> In x l.
+Proof.
+  induction l as [|a r IH]; cbn; intros H; [exact H|].
+  apply in_insert_span in H as [H|H]; [left; symmetry; exact H|right; apply IH, H].
+Qed.
+Lemma last_in : forall A (l : list A) d x, last l d = x -> l <> [] -> In x l.
+Proof.
+  induction l as [|a r IH]; intros d x H Hn; [contradiction|].
+  destruct r as [|b r']; [cbn in H; left; exact H|]. right. apply (IH d). exact H. discriminate.
+Qed.
+Lemma mm_get_vec_in : forall V (m : mm V) k v, In v (mm_get_vec m k) -> In (k, v) m.
+Proof.
+  intros V m k v H. unfold mm_get_vec in H. apply in_map_iff in H as [p [Hp Hin]]. apply filter_In in Hin as [Hin Hk].
+  apply String.eqb_eq in Hk. destruct p; cbn in *; subst. exact Hin.
+Qed.
+Lemma find_closest_some : forall st k ks fs, find_closest_fold_span st k ks = Some fs ->
+  In (k, fs) (met_iterator_definitions st) /\ contains_span fs ks = true.
+Proof.
+  intros st k ks fs H. unfold find_closest_fold_span in H.
+  set (l := filter (fun s => contains_span s ks) (sorted_iterator_spans st k)) in *.
+  assert (Hin : In (Some fs) (map Some l)).
+  { apply (last_in _ _ None); [exact H|]. destruct l; [cbn in H; discriminate|discriminate]. }
+  apply in_map_iff in Hin as [x [Hx Hin]]. inversion Hx; subst x. unfold l in Hin. apply filter_In in Hin as [Hin Hc].
+  split; [|exact Hc]. apply mm_get_vec_in. unfold sorted_iterator_spans in Hin. apply in_sort_spans in Hin. exact Hin.
+Qed.
+
+Lemma iterables_sound : forall evs, check_undefined_iterables (run_events evs) = [] ->
+  forall l1 e l2, evs = l1 ++ e :: l2 -> forall k, ev_next e = Some k ->
+  exists e0 fs, In e0 (l1 ++ [e]) /\ ev_next e0 = Some k /\ find_closest_fold_span (run_events evs) k (ev_span e0) = Some fs.
+Proof.
+  intros evs Hchk l1 e l2 Hevs k Hk.
+  set (st1 := run_events l1).
+  assert (Hrun : run_events evs = fold_left step l2 (step st1 e)).
+  { subst evs. unfold run_events, st1. rewrite fold_left_app. reflexivity. }
+  destruct (step_fields st1 e) as [_ [_ [Fn _]]]. rewrite Hk in Fn.
+  assert (Hin : In (k, ev_span e) (unresolved_iterables (step st1 e))).
+  { rewrite Fn. unfold mm_insert. apply in_or_app. right. left. reflexivity. }
+  destruct (unres_iter_grows l2 (step st1 e)) as [extra Hex].
+  destruct (mm_iter_first _ _ extra k (ev_span e) Hin) as [s0 [H1 H2]].
+  assert (Ho : origin (l1 ++ [e]) (step st1 e)) by (apply origin_step, origin_run).
+  destruct Ho as [_ [_ [_ Hc4]]]. destruct (Hc4 k s0 H2) as [e0 [E1 [E2 E3]]]. subst s0.
+  unfold check_undefined_iterables in Hchk. rewrite Hrun, Hex in Hchk.
+  pose proof (flat_map_nil _ _ _ _ Hchk (k, ev_span e0) H1) as Hf. cbn in Hf.
+  destruct (find_closest_fold_span (fold_left step l2 (step st1 e)) k (ev_span e0)) as [fs|] eqn:Hfs; [|discriminate].
+  exists e0, fs. split; [exact E1|]. split; [exact E2|]. rewrite Hrun. exact Hfs.
+Qed.
+
+Theorem C23_next_partial_holds : C23_next_partial_stmt.
+Proof.
+  intros t s Hw Hv n Hn Hmin.
+  destruct (validate_accepts _ _ Hv) as [T [Hs [_ Hchk]]].
+  destruct (skeleton_layout _ _ _ Hs Hw) as [Hlay _].
+  destruct (skeleton_bridged _ _ _ Hs Hw) as [_ Bi _ Bn Bb].
+  destruct (Bn n Hn) as [e [[l1 [l2 Hloc]] [Hleaf [Hnext [Hl Hr]]]]].
+  destruct (iterables_sound _ Hchk _ _ _ Hloc _ Hnext) as [e0 [fs [He0 [Hk0 Hfs]]]].
+  apply find_closest_some in Hfs as [Hit Hcont].
+  destruct (origin_run (post T)) as [_ [Hb _]]. destruct (Hb _ _ Hit) as [e' [He' [Hi' Hsp']]].
+  apply in_app_or in He0 as [He0|[He0|[]]].
+  - (* an earlier next of the same name: impossible, n is the first one *)
+    exfalso. destruct (around_leaf _ Hlay _ _ _ Hloc Hleaf) as [Hbefore _]. destruct (Hbefore _ He0) as [R0 _].
+    assert (Hin0 : In e0 (post T)) by (rewrite Hloc; apply in_or_app; left; exact He0).
+    destruct (Bb _ _ Hin0 Hk0) as [p0 [Hp0 [A B]]].
+    pose proof (Hmin (fst n, p0) Hp0 eq_refl) as Hle. cbn in Hle. lia.
+  - subst e0. exists (fst n, fs). split; [subst fs; apply Bi; assumption|]. split; [reflexivity|].
+    cbn. unfold contains_span, contains_position in Hcont.
+    apply andb_true_iff in Hcont as [C1 C2]. apply andb_true_iff in C1 as [C1 _]. apply andb_true_iff in C2 as [_ C2].
+    apply N.ltb_lt in C1, C2. unfold eL, eR in *. lia.
+Qed.
+
